@@ -114,6 +114,28 @@ use lazy_static::*;
 use crate::ast::Ast;
 use crate::interpreter::{interpret, SearchResult};
 
+/// Scheduling / observation points for verification harnesses. Compiled only
+/// with `--cfg jmespath_rs_verif`; a no-op until a callback is installed.
+#[cfg(jmespath_rs_verif)]
+pub mod verif_hooks {
+    use std::sync::OnceLock;
+
+    static CALLBACK: OnceLock<fn(&'static str)> = OnceLock::new();
+
+    /// Installs the callback invoked at every hook point (once per process).
+    pub fn install(callback: fn(&'static str)) -> bool {
+        CALLBACK.set(callback).is_ok()
+    }
+
+    /// A hook point.
+    #[inline]
+    pub fn point(label: &'static str) {
+        if let Some(callback) = CALLBACK.get() {
+            callback(label);
+        }
+    }
+}
+
 mod errors;
 mod interpreter;
 mod lexer;
@@ -145,6 +167,12 @@ pub type Rcvar = std::sync::Arc<Variable>;
 /// grammar: <https://jmespath.org/specification.html>
 #[inline]
 pub fn compile(expression: &str) -> Result<Expression<'static>, JmespathError> {
+    #[cfg(jmespath_rs_verif)]
+    crate::verif_hooks::point("default-runtime-before");
+    #[cfg(jmespath_rs_verif)]
+    lazy_static::initialize(&DEFAULT_RUNTIME);
+    #[cfg(jmespath_rs_verif)]
+    crate::verif_hooks::point("default-runtime-after");
     DEFAULT_RUNTIME.compile(expression)
 }
 
@@ -389,6 +417,8 @@ impl<'a> Expression<'a> {
     /// Alternatively, Variable does implement Serde serialzation and
     /// deserialization, so it can easily be marshalled to another type.
     pub fn search<T: ToJmespath>(&self, data: T) -> SearchResult {
+        #[cfg(jmespath_rs_verif)]
+        crate::verif_hooks::point("search-enter");
         let mut ctx = Context::new(&self.expression, self.runtime);
         interpret(&data.to_jmespath()?, &self.ast, &mut ctx)
     }
